@@ -29,6 +29,7 @@ fixed("C01", "json-rt *.Audience list1:obj", "32d5ab2", "a list property holding
 fixed("C01", "json-rt PublicKey.ID str", "33268bc", "PublicKey with only an id encoded to nothing (inverted not-empty flag)", "cell: pkg Actor.PublicKey key-idonly")
 fixed("C01", "json-rt *.Content nlN", "c2da78d", "Content/LangRef.UnmarshalText emptied unquoted text longer than two bytes: every entry of a language map was read as empty", "cell: pkg Object.Content nlN")
 fixed("C01", "json-rt *.Bto list:link+obj", "d6489cd", "collection Equals returned true when the other item could not be converted (OrderedCollectionPage vs OrderedCollection with different ids), so list de-duplication while decoding dropped a member", "random layer, seed 1")
+fixed("C01", "json-rt *.Attachment obj:Object-idless", "cfd5e10", "an embedded object without id and type whose only property is a negative duration was judged empty by the decoder and dropped (Duration > 0 row)", "cells: pkg anonymous-in-Attachment Object.Duration neg")
 # ---- C03 (gob round trip)
 fixed("C03", "gob-rt *.Origin *", "93c7084", "origin never gob encoded", "cell: pkg Activity.Origin iri")
 fixed("C03", "gob-rt Place.Longitude *", "ae8d2b0", "longitude never gob decoded", "cell: pkg Place.Longitude pos")
